@@ -68,7 +68,57 @@ func pkgPathOf(fn *ssa.Function) string {
 	return ""
 }
 
+// call executes a call instruction and records it in the call-trace ghosts
+// (called(F), resultof(F, r), argof(F, p) in contracts refer to the LAST call of F).
 func (fx *FnExec) call(fr *frame, st *State, res ssa.Value, cc *ssa.CallCommon) Val {
+	r := fx.call0(fr, st, res, cc)
+	if _, isB := cc.Value.(*ssa.Builtin); isB {
+		return r
+	}
+	key := ""
+	if cc.IsInvoke() {
+		key = ifaceMethodKey(cc.Value.Type(), cc.Method.Name())
+	} else if callee := cc.StaticCallee(); callee != nil {
+		key = funcKey(callee)
+		if pkgPathOf(callee) == "github.com/sirupsen/logrus" {
+			return r
+		}
+	} else {
+		return r
+	}
+	if !fx.eng.traced[key] {
+		return r
+	}
+	c := fx.c
+	st.ghost["call|"+key+"|called"] = c.True()
+	cnt, ok := st.ghost["call|"+key+"|count"].(*Term)
+	if !ok {
+		cnt = fx.bv64(0)
+	}
+	st.ghost["call|"+key+"|count"] = c.BVBin("bvadd", cnt, fx.bv64(1))
+	off := 0
+	if cc.IsInvoke() {
+		st.ghost["call|"+key+"|recv"] = fx.val(fr, cc.Value)
+	} else if cc.StaticCallee().Signature.Recv() != nil && len(cc.Args) > 0 {
+		st.ghost["call|"+key+"|recv"] = fx.coerce(fx.val(fr, cc.Args[0]), cc.Args[0].Type())
+		off = 1
+	}
+	for i := off; i < len(cc.Args); i++ {
+		st.ghost[fmt.Sprintf("call|%s|arg%d", key, i-off)] = fx.coerce(fx.val(fr, cc.Args[i]), cc.Args[i].Type())
+	}
+	if r != nil {
+		if tv, ok := r.(TupleV); ok {
+			for i, x := range tv {
+				st.ghost[fmt.Sprintf("call|%s|res%d", key, i)] = x
+			}
+		} else {
+			st.ghost["call|"+key+"|res0"] = r
+		}
+	}
+	return r
+}
+
+func (fx *FnExec) call0(fr *frame, st *State, res ssa.Value, cc *ssa.CallCommon) Val {
 	var args []Val
 	for _, a := range cc.Args {
 		args = append(args, fx.coerce(fx.val(fr, a), a.Type()))
@@ -322,7 +372,14 @@ func (fx *FnExec) escape(fr *frame, st *State, v Val) {
 	}
 }
 
-func (fx *FnExec) nextEpoch() int { fx.epoch++; return fx.epoch }
+func (fx *FnExec) nextEpoch() int {
+	fx.epoch++
+	if fx.epochSerial == nil {
+		fx.epochSerial = map[int]int{}
+	}
+	fx.epochSerial[fx.epoch] = len(fx.freshRefs)
+	return fx.epoch
+}
 
 // havocAll forgets the whole heap except objects that are still private to
 // this frame.
@@ -497,7 +554,7 @@ func (fx *FnExec) copyBuiltin(fr *frame, st *State, cc *ssa.CallCommon, args []V
 	}
 	n := c.Ite(c.BVCmp("bvslt", slen, dst.Len), slen, dst.Len)
 	fx.frameWrite(fr, st, dst.Ref, cc.Pos(), "copy into memory that existed before the call")
-	if es := singleSort(et); es == nil || isObjT(et) {
+	if es := singleSort(et); es == nil || isElemObj(et) {
 		// composite elements: destination contents unconstrained
 		fx.drop("copy of slices with composite elements (destination contents unconstrained)")
 		fx.havocBacking(st, et, dst.Ref)
@@ -524,7 +581,7 @@ func (fx *FnExec) copyBuiltin(fr *frame, st *State, cc *ssa.CallCommon, args []V
 }
 
 func (fx *FnExec) havocBacking(st *State, et types.Type, ref *Term) {
-	if isObjT(et) {
+	if isElemObj(et) {
 		tf := map[string]bool{}
 		fx.typeFamilies(et, tf)
 		for p := range tf {
@@ -576,10 +633,10 @@ func (fx *FnExec) appendBuiltin(fr *frame, st *State, cc *ssa.CallCommon, args [
 	fx.assumeGlobal(c.BVCmp("bvsle", newLen, c.BVConst(mask(maxLenBits), 64)))
 	res := SliceV{c.Ite(inplace, s.Ref, nr), c.Ite(inplace, s.Off, fx.bv64(0)), newLen, c.Ite(inplace, s.Cap, ncap)}
 	fx.private[nr] = privInfo{t: et, backing: true}
-	if es := singleSort(et); es == nil || isObjT(et) {
+	if es := singleSort(et); es == nil || isElemObj(et) {
 		fx.drop("append on slices with composite elements (appended contents unconstrained)")
 		// element contents: copy unknown; havoc the target backing arrays
-		if !isObjT(et) {
+		if !isElemObj(et) {
 			fx.havocBacking(st, et, res.Ref)
 		} else {
 			tf := map[string]bool{}
@@ -627,6 +684,13 @@ func (fx *FnExec) syncCall(fr *frame, st *State, callee *ssa.Function, args []Va
 		}
 		switch n {
 		case "Lock", "RLock":
+			if fx.atomicLocks {
+				// contract option `atomic`: the body is one critical section, verified as a sequential
+				// atomic action whose pre-state is the state at lock acquisition
+				fx.note("atomic: lock acquisition does not havoc the heap (the function is verified as an atomic action over the state at acquisition; interference before the lock is taken is outside the contract)")
+				st.held[key] = fx.c.True()
+				return nil
+			}
 			fx.frameWrite(fr, st, nil, pos, "acquire a lock")
 			fx.note("sync.Mutex: acquiring a lock havocs the shared heap (other goroutines may have run); critical sections are reasoned about sequentially")
 			fx.havocAll(st)
@@ -853,7 +917,7 @@ func (fx *FnExec) callEffects(fr *frame, cc *ssa.CallCommon, li *loopInfo, addrE
 		switch b.Name() {
 		case "copy", "append":
 			et := under(cc.Args[0].Type()).(*types.Slice).Elem()
-			if isObjT(et) {
+			if isElemObj(et) {
 				fx.typeFamilies(et, out)
 			} else {
 				out["M|"+typeKey(et)+"|"] = true
@@ -945,6 +1009,13 @@ func (fx *FnExec) modifiesEffect(x *CExpr, argOf map[string]ssa.Value, li *loopI
 		base = base.Args[0]
 	}
 	switch base.Op {
+	case "call":
+		if base.Name == "mapof" {
+			// which map type? resolve statically when the argument is  param.field  or  param.field[...]
+			out["MD|"] = true
+			out["MV|"] = true
+			return
+		}
 	case "ident":
 		if _, ok := fx.eng.ghostTypes[base.Name]; ok {
 			li.modGhost[base.Name] = true
@@ -965,7 +1036,7 @@ func (fx *FnExec) modifiesEffect(x *CExpr, argOf map[string]ssa.Value, li *loopI
 				}
 				return
 			case *types.Slice:
-				if isObjT(u.Elem()) {
+				if isElemObj(u.Elem()) {
 					fx.typeFamilies(u.Elem(), out)
 				} else {
 					out["M|"+typeKey(u.Elem())+"|"] = true
